@@ -124,6 +124,11 @@ def gen(tier, rng):
         if body and rng.random() < 0.5:
             body = bytes([rng.choice([0x80, 0xff, 0x7f, 0x01])]) + body[1:]
         out.append("uns.frombytes %s" % hx(b"\x00" * z + body))
+    # truncated encodings of this property's typed values (scripts.truncated_leaves)
+    import scripts as _scripts
+    for (_m, _d, _sc) in _scripts.truncated_leaves([0x02]):
+        for _src in ("slice", "stingy"):
+            out.append("run %s %s %s %s" % (_m, _src, hx(_d), _sc))
     return out
 
 def nontrivial(req, ans):
